@@ -34,6 +34,8 @@ type vfRelayRig struct {
 	tmux     bool
 	toBypass *vfSink
 	curSink  byte // sink expected for the server tokens generated next: 'p' pane, 'b' bypass
+	// last tunnel episode: the ACT JSON the client wrote into the tunnel and the ACT line that reached the server (C14)
+	tunActIn, tunActOut string
 }
 
 var vfTmuxRelayMu sync.Mutex
@@ -591,7 +593,9 @@ func (r *vfRelayRig) tunnelEpisode(rnd *vfRand) bool {
 	go vfPumpConn(sconn, fromClient)
 	go vfPumpConn(cconn, fromServer)
 	// the client's ACT through the tunnel, with tokens around it
-	act := "#ACT:" + encodeString(fmt.Sprintf(`{"lang":"go","version":"1.1.5","confirm":true,"newline":"\n","protocol":%d,"binary":true,"support_dir":true,"tunnel":true}`, 4+rnd.Intn(3))) + "\n"
+	r.tunActIn = fmt.Sprintf(`{"lang":"go","version":"1.1.5","confirm":true,"newline":"\n","protocol":%d,"binary":true,"support_dir":true,"tunnel":true}`, 4+rnd.Intn(3))
+	r.tunActOut = ""
+	act := "#ACT:" + encodeString(r.tunActIn) + "\n"
 	var bundle []byte
 	bundle = append(bundle, r.ctoks(rnd.Intn(3), "junk", false, &ct)...)
 	bundle = append(bundle, act...)
@@ -600,6 +604,9 @@ func (r *vfRelayRig) tunnelEpisode(rnd *vfRand) bool {
 	if !vfWaitSink(fromClient, 0, []byte("#ACT:"), 10*time.Second) {
 		c.Slow("c13-act-not-forwarded", "tunnel episode: no ACT reached the server through the tunnel")
 		return false
+	}
+	if vfWaitSink(fromClient, 0, []byte("\n"), 10*time.Second) {
+		r.tunActOut, _, _ = vfRawLine(fromClient.Bytes(), "#ACT:")
 	}
 	post := r.ctoks(1+rnd.Intn(4), "must", true, &ct)
 	var sb []byte
